@@ -38,6 +38,10 @@ benign("C02", "phase-check-after-error-check", "controller/block.go",
 fire("C03", "R1", "hash-in-map-order", "store/txn.go", "func (t *Txn) flush(prefix []byte, writeVersion uint64) (err lib.ErrorI) {\n\tfor _, v := range t.txn.ops {\n", "func (t *Txn) flush(prefix []byte, writeVersion uint64) (err lib.ErrorI) {\n\tvar order []byte\n\tfor _, v := range t.txn.ops {\n\t\torder = append(order, v.key...)\n")
 fire("C03", "R2", "timestamp-into-header", "fsm/state.go", "\t\tNumTxs:                uint64(r.Count),", "\t\tNumTxs:                uint64(r.Count) + uint64(beginBlockStartTime.Unix()%1),")
 benign("C03", "count-in-map-range", "fsm/byzantine.go", "func (s *StateMachine) SlashValidators(", "func countTracked(m map[string]map[uint64]uint64) (n int) {\n\tfor _, v := range m {\n\t\tn += len(v)\n\t}\n\treturn\n}\n\nfunc (s *StateMachine) SlashValidators(")
+fire("C03", "R7", "header-read-fills-block-cache", "store/indexer.go", "\t// NOTE: a header-only result must not enter the block cache: GetBlockByHeight() serves full blocks from that cache\n\treturn t.getBlock(hashKey, false)\n",
+     "\tblock, err := t.getBlock(hashKey, false)\n\tif err != nil {\n\t\treturn nil, err\n\t}\n\tblockCache.Add(height, block)\n\treturn block, nil\n")
+benign("C03", "block-cache-fill-through-local", "store/indexer.go", "\t// populate cache on read so historical blocks are warm after a restart\n\tblockCache.Add(height, block)\n\treturn block, nil\n}\n\n// GetBlockHeaderByHeight()",
+       "\t// populate cache on read so historical blocks are warm after a restart\n\tfull := block\n\tblockCache.Add(height, full)\n\treturn full, nil\n}\n\n// GetBlockHeaderByHeight()")
 # ---------------------------------------------------------------- C04
 fire("C04", "R1", "direct-supply-bump", "fsm/message.go", "\t// add to recipient committee\n\treturn s.PoolAdd(msg.ChainId, msg.Amount)", "\t// add to recipient committee\n\tif err = s.AddToTotalSupply(0); err != nil {\n\t\treturn err\n\t}\n\treturn s.PoolAdd(msg.ChainId, msg.Amount)")
 fire("C04", "R3", "subsidy-credits-fee-too", "fsm/message.go", "\treturn s.PoolAdd(msg.ChainId, msg.Amount)", "\treturn s.PoolAdd(msg.ChainId, msg.Amount+1)")
